@@ -163,10 +163,31 @@ out:
 	for (int i = 0; i < 3; i++) { relt_clear(&F[i]); relt_clear(&R[i]); } relt_clear(&E); relt_clear(&G); mpz_clear(e);
 }
 
+#if EP_ADD == PROJC || EP_ADD == JACOB
+/* dxs: cid, j: the sparse multiplications of the Miller loop against the generic product in the reference tower. The sparse operand has the shape the
+ * line functions produce for the selected twist type (D: b[0][0], b[1][0], b[1][1]; M: b[0][0], b[0][1], b[1][1] non-zero, as F_p^2 slots). */
+static void do_dxs(vf_case *c) {
+	long j = mpz_get_si(c->v[1]); int th; relt A, B, E; relt_init(&A); relt_init(&B); relt_init(&E); fexp_elem(&A, 2 * j + 100); fexp_elem(&B, 2 * j + 101);
+	int tw = ep2_curve_is_twist(); static const int KD[] = {0, 1, 6, 7, 8, 9}, KM[] = {0, 1, 2, 3, 8, 9}; const int *keep = tw == RLC_EP_DTYPE ? KD : KM;
+	for (int i = 0; i < 12; i++) { int k = 0; for (int q = 0; q < 6; q++) if (keep[q] == i) k = 1; if (!k) mpz_set_ui(B.c[i], 0); }
+	if (j % 4 == 1) mpz_set_ui(B.c[keep[1]], 0); if (j % 4 == 2) { mpz_set_ui(B.c[keep[2]], 0); mpz_set_ui(B.c[keep[3]], 0); } if (j % 4 == 3) { mpz_set_ui(B.c[keep[0]], 1); mpz_set_ui(B.c[keep[1]], 0); }
+	relt_mul(&T12, &E, &A, &B);
+	typedef void (*m_fn)(fp12_t, const fp12_t, const fp12_t); static const struct { const char *n; m_fn f; } M[] = {{"fp12_mul_dxs_basic", fp12_mul_dxs_basic}, {"fp12_mul_dxs_lazyr", fp12_mul_dxs_lazyr}};
+	fp12_t a, b, r; fp12_new(a); fp12_new(b); fp12_new(r);
+	for (int i = 0; i < 2; i++) for (int al = 0; al < 2; al++) { gt_put(a, &A); gt_put(b, &B); memset(r, 0x5A, sizeof(fp12_t)); fp_st (*o)[2][3][2] = NULL; (void)o; char w[64]; snprintf(w, sizeof w, "%s%s (twist type %d)", M[i].n, al ? " [c == a]" : "", tw);
+		if (al) { VF_TRY(th, M[i].f(a, a, b)); if (th) vf_fail(NULL, "%s raised %d", w, th); else expect_gt(w, a, &E); } else { VF_TRY(th, M[i].f(r, a, b)); if (th) vf_fail(NULL, "%s raised %d", w, th); else expect_gt(w, r, &E); } }
+	relt_clear(&A); relt_clear(&B); relt_clear(&E);
+}
+#endif
+
 static void run_case(vf_case *c) {
 	if (!select_pc(mpz_get_si(c->v[0]))) { vf_fail(NULL, "parameter set %ld could not be installed", mpz_get_si(c->v[0])); return; }
 	vf_nontrivial();
-	if (!strcmp(c->op, "base")) do_base(c); else if (!strcmp(c->op, "pair")) do_pair(c); else if (!strcmp(c->op, "sim")) do_sim(c); else if (!strcmp(c->op, "line")) do_line(c); else if (!strcmp(c->op, "fexp")) do_fexp(c); else vf_fail(NULL, "unknown op");
+	if (!strcmp(c->op, "base")) do_base(c); else if (!strcmp(c->op, "pair")) do_pair(c); else if (!strcmp(c->op, "sim")) do_sim(c); else if (!strcmp(c->op, "line")) do_line(c); else if (!strcmp(c->op, "fexp")) do_fexp(c);
+#if EP_ADD == PROJC || EP_ADD == JACOB
+	else if (!strcmp(c->op, "dxs")) do_dxs(c);
+#endif
+	else vf_fail(NULL, "unknown op");
 }
 
 static vf_case K;
@@ -212,6 +233,9 @@ static void enumerate(void) {
 		/* line functions: (a, b, c) over small multiples */
 		for (int bi = 0; bi < 2; bi++) for (long a = 1; a <= 3; a++) for (long b = 1; b <= (vf_tier ? 12 : 6); b++) for (long c2 = -3; c2 <= 6; c2++) if (vf_mine()) { vf_stat_add("states", 1); K.op = "line"; K.n = 5; mpz_set_si(K.v[1], bi); mpz_set_si(K.v[2], a); mpz_set_si(K.v[3], b); mpz_set_si(K.v[4], c2); vf_run(&K); }
 		for (long j = 0; j < (vf_tier ? 64 : 24); j++) if (vf_mine()) { vf_stat_add("states", 1); K.op = "fexp"; K.n = 2; mpz_set_si(K.v[1], j); vf_run(&K); }
+#if EP_ADD == PROJC || EP_ADD == JACOB
+		for (long j = 0; j < (vf_tier ? 200 : 64); j++) if (vf_mine()) { vf_stat_add("states", 1); K.op = "dxs"; K.n = 2; mpz_set_si(K.v[1], j); vf_run(&K); }
+#endif
 		vf_dom_clear(&S);
 		vf_bound_done(bn);
 	}
